@@ -19,6 +19,7 @@ import (
 	"strings"
 	"time"
 
+	"github.com/lesismal/nbio/mempool"
 	"github.com/lesismal/nbio/nbhttp"
 	"verifharness/hx"
 )
@@ -75,9 +76,10 @@ func pat(n int, seed byte) []byte {
 }
 
 type prog struct {
-	Minor    int  `json:"http_minor"`
-	CloseReq bool `json:"connection_close"`
-	Ops      []op `json:"ops"`
+	Minor    int    `json:"http_minor"`
+	CloseReq bool   `json:"connection_close"`
+	Alloc    string `json:"allocator,omitempty"`
+	Ops      []op   `json:"ops"`
 	sizes    []int
 }
 
@@ -153,6 +155,9 @@ func gen(r *rand.Rand, it int) *prog {
 	}
 	if r.Intn(2) == 0 {
 		p.Ops = append(p.Ops, op{Kind: "x", K: "X-A", V: "b c"})
+	}
+	if r.Intn(4) == 0 { // a head that outgrows the 1024-byte buffer it is built in
+		p.Ops = append(p.Ops, op{Kind: "x", K: "X-Big-1", V: strings.Repeat("v1", 300+r.Intn(100))}, op{Kind: "x", K: "X-Big-2", V: strings.Repeat("w", 500+r.Intn(300))})
 	}
 	if trailers {
 		p.Ops = append(p.Ops, op{Kind: "t", K: "X-Sum"})
@@ -421,8 +426,14 @@ func oracle(p *prog, writes [][]byte, wrets []string) (string, string) {
 		}
 		return "body", fmt.Sprintf("client decodes %d body bytes, handler wrote %d (first difference at %d)", len(body), len(e.body), firstDiff(body, e.body))
 	}
-	if e.custom && resp.Header.Get("X-A") != "b c" {
-		return "header", fmt.Sprintf("header X-A = %q", resp.Header.Get("X-A"))
+	for _, o := range p.Ops {
+		if o.Kind == "x" && resp.Header.Get(o.K) != o.V {
+			got := resp.Header.Get(o.K)
+			if len(got) > 80 {
+				got = got[:80] + "..."
+			}
+			return "header", fmt.Sprintf("header %s: client decodes %q (%d bytes), handler set %d bytes", o.K, got, len(resp.Header.Get(o.K)), len(o.V))
+		}
 	}
 	if e.hasTr {
 		if v, ok := resp.Trailer["X-Sum"]; !ok || len(v) != 1 || v[0] != e.trailer {
@@ -478,7 +489,22 @@ func main() {
 	r := rand.New(rand.NewSource(*seed))
 	for it := 0; it < *n && !rep.TooMany(); it++ {
 		p := gen(r, it)
+		// the allocator behind mempool.Malloc/Append/Free (package nbhttp uses the package-level pool): the in-place growing
+		// default, the library's size-class allocator (relocates when a class is exceeded) and one that relocates always
+		saved := mempool.DefaultMemPool
+		switch it % 4 {
+		case 1:
+			mempool.DefaultMemPool = mempool.NewAligned()
+			p.Alloc = "aligned"
+		case 3:
+			mempool.DefaultMemPool = &hx.MovingAllocator{}
+			p.Alloc = "always-moving"
+		default:
+			p.Alloc = "default"
+		}
+		rep.Stat("allocator." + p.Alloc)
 		writes, wrets := runImpl(p)
+		mempool.DefaultMemPool = saved
 		nz := false
 		for _, s := range p.sizes {
 			nz = nz || s > 0
